@@ -25,14 +25,27 @@ type TypeConverter struct {
 
 // NewTypeConverter creates a new TypeConverter for the given package.
 func NewTypeConverter(currentPkg *types.Package) *TypeConverter {
-	return &TypeConverter{
+	tc := &TypeConverter{
 		currentPkg:   currentPkg,
 		imports:      make(map[string]string),
 		usedNames:    make(map[string]string),
 		nameCounters: make(map[string]int),
 		qualifiers:   make(map[*ast.Ident]bool),
 	}
+	// Names an import of the output file cannot take: the kessoku package itself and
+	// every identifier declared at package level in the package the file is written for
+	// (an import name collides with them although it is file-scoped).
+	tc.usedNames["kessoku"] = reservedName
+	if currentPkg != nil {
+		for _, name := range currentPkg.Scope().Names() {
+			tc.usedNames[name] = reservedName
+		}
+	}
+	return tc
 }
+
+// reservedName marks a local name that is taken by something other than an import.
+const reservedName = ""
 
 // qualifierIdent returns a new package identifier with the given (final) name.
 func (tc *TypeConverter) qualifierIdent(name string) *ast.Ident {
